@@ -233,6 +233,19 @@ def make_case(rng):
             el = "<%s %s>%s</%s>" % (shape, astr, docgen.text_escape(rng, src), shape)
         else:
             el = "<%s %s><![CDATA[%s]]></%s>" % (shape, astr, src, shape)
+            if len(src) >= 3 and rng.random() < 0.4:
+                # content mixing ordinary text with a CDATA section: the pieces are one string, white space next to the section
+                # included. (A piece of white space only around a section is layout and is dropped, so pieces are kept non-blank.)
+                i = rng.randint(1, len(src) - 2)
+                j = rng.randint(i + 1, len(src) - 1)
+                a, b, c = src[:i], src[i:j], src[j:]
+                if rng.random() < 0.3:
+                    b, c = b + c, ""
+                elif rng.random() < 0.2:
+                    a, b = "", a + b
+                if (a == "" or a.strip()) and (c == "" or c.strip()) and (a or c) and "]]>" not in b:
+                    el = "<%s %s>%s<![CDATA[%s]]>%s</%s>" % (shape, astr, docgen.text_escape(rng, a), b, docgen.text_escape(rng, c), shape)
+                    feats.add("carrier.mixed-text-cdata")
     feats.add("carrier." + carrier)
     feats.add("shape." + shape)
     doc = "<svg>%s%s</svg>" % (pre, el)
